@@ -88,6 +88,24 @@ theorem lowerHost_eq_nil {h : Str} : lowerHost h = [] ↔ h = [] := by
       · simp [ha, lower] at e
   · rintro rfl; decide
 
+/-- the third hand model of `.hostname` (`Fingerprint.pyHostname`, `Model/C06Netloc.lean`: the
+accessors `fingerprint_url` reads a second time) is the accessor of the round-trip development -/
+theorem fingerprint_pyHostname_eq (n : Str) : Ural.Fingerprint.pyHostname n = hostname n := by
+  have e : (Ural.Fingerprint.pyHostinfo n).1 = (hostinfo n).1 := by
+    unfold Ural.Fingerprint.pyHostinfo hostinfo hostPortStr hostinfoStr
+    simp only
+    cases h : (splitFirst (splitLast n '@').2 '[').2 <;> simp [h]
+  have hv : ∀ x, Ural.Fingerprint.hostnameView x = lowerHost x := fun _ => rfl
+  unfold Ural.Fingerprint.pyHostname hostname
+  simp only [e, hv]
+  by_cases h : (hostinfo n).1 = []
+  · simp [h]
+  · have : (hostinfo n).1.isEmpty = false := by
+      cases hx : (hostinfo n).1 with
+      | nil => exact absurd hx h
+      | cons _ _ => rfl
+    simp [h, this]
+
 /-- `hostOfModel` is the `.hostname` accessor of the round-trip development on the netloc the
 modelled parser finds -/
 theorem hostOfModel_hostname (s : Str) :
